@@ -5,7 +5,7 @@ From XV Require Import lib.Bytes lib.Xml gen.Serve C08.Model C08.Case C08.Proofs
 Definition cl (l : string) : name := mkname sv_ns_client (str l).
 Definition at' (l v : string) : attr := mk_attr (str l) (str v).
 
-Definition ex_c : cfg := mkcfg false sv_ns_client (str "me@example.net") (fun s => Some s).
+Definition ex_c : cfg := mkcfg false sv_ns_client (str "me@example.net") (fun s => Some s) false.
 
 (* <message from='me@example.net'><body>hi</body></message> <a/><!-- c --><b/> *)
 Definition ex_script : list token :=
@@ -82,7 +82,7 @@ Proof. vm_compute. reflexivity. Qed.
 
 (* ---- WebSocket framing: the hypotheses of the ws clauses of
    C08_stream_level_never_delivered are satisfiable, and a worked run ---- *)
-Definition ex_ws : cfg := mkcfg true sv_ns_client (str "me@example.net") (fun s => Some s).
+Definition ex_ws : cfg := mkcfg true sv_ns_client (str "me@example.net") (fun s => Some s) false.
 Definition fr (l : string) : name := mkname sv_ns_framing (str l).
 
 Example ex_ws_hyps :
@@ -102,4 +102,21 @@ Example ex_ws_runs :
   (s_ret r1 = None /\ map v_attrs (s_invs r1) = [[at' "from" ""]]) /\
   (s_ret r2 = Some ERestart /\ length (s_invs r2) = 1) /\
   (s_ret r3 = Some ERestart /\ map v_ret (s_invs r3) = [Some ERestart]).
+Proof. vm_compute. repeat split; reflexivity. Qed.
+
+(* ---- only the peer's close ends Serve with nil; closed output; condition-less stream error ---- *)
+Definition ex_closed : cfg := mkcfg false sv_ns_client (str "me@example.net") (fun s => Some s) true.
+
+Example ex_nil_only_at_close :
+  (* a handler error that wraps io.EOF: Serve returns it, the next element is not served *)
+  (let r := serve_all ex_c (fun _ _ _ => HRet (Some EWrapEOF)) [TStart (cl "a") []; TEnd (cl "a"); TStart (cl "b") []; TEnd (cl "b"); TEnd stream_root] in
+   s_ret r = Some EWrapEOF /\ length (s_invs r) = 1) /\
+  (* output already closed: a comment still ends Serve with its error, a request cannot be answered, the close gives nil *)
+  s_ret (serve_all ex_closed ex_handlers [TStart (cl "a") []; TEnd (cl "a"); TMisc 0 (str " c ")]) = Some EComment /\
+  s_ret (serve_all ex_closed ex_handlers [TStart (cl "iq") [at' "type" "get"; at' "id" "x"]; TEnd (cl "iq"); TEnd stream_root]) = Some EOutClosed /\
+  s_ret (serve_all ex_closed ex_handlers [TStart (cl "a") []; TEnd (cl "a"); TEnd stream_root]) = None /\
+  (* <stream:error><text>..</text></stream:error>: returned as a stream error without condition *)
+  s_ret (serve_all ex_c ex_handlers [TStart (mkname sv_ns_stream s_error) []; TStart (mkname sv_ns_stream_error s_text) [];
+                                     TChar (str "bye"); TEnd (mkname sv_ns_stream_error s_text); TEnd (mkname sv_ns_stream s_error)])
+    = Some (EStreamErr []).
 Proof. vm_compute. repeat split; reflexivity. Qed.
